@@ -205,6 +205,22 @@ def dump_sig(fn):
     return {'params': ps, 'ret': None if sig.return_annotation is EMPTY else vnum(sig.return_annotation)}
 
 
+def readded_ops(ops):
+    """names a builder history removes and adds again later on (parameter ids): the statement says nothing
+    about the annotation such a parameter ends up with, so the correspondence does not compare it"""
+    out = []
+    for i, op in enumerate(ops):
+        if op[0] == 'r' and any(o[0] != 'r' and o[1] == op[1] for o in ops[i + 1:]):
+            out.append(op[1])
+    return out
+
+
+def readded_w(inj, exp):
+    """the same for wraps(injected, expected): every injected name comes before every expected one"""
+    names = [z for z, _d in exp]
+    return [x for x in inj if x in names]
+
+
 class C13(Property):
     PID = 'C13'
     QUICK_BUDGET_S = 40
@@ -1131,13 +1147,19 @@ class C13(Property):
         final = obs['snaps'][-1]
         nbase = len(obs['base'])
         blocks = [','.join(res_txt(r) for r in obs['results']) or '-']
+        # per function: the names whose annotation is left open (re-added by its own request, or open in its target)
+        masks = [[] for _ in range(nbase)]
+        for st, r in zip(case['session'], obs['results']):
+            if r == 'built':
+                own = readded_w(st[2], st[3]) if st[0] == 'w' else readded_ops(st[2])
+                masks.append((masks[st[1]] if st[1] < len(masks) else []) + own)
         for j, sn in enumerate(final):
             if 'exc' in sn['sig']:
                 blocks.append('sigerr %s' % sn['sig']['exc'])
                 continue
             txt = 'S %s ; M %s ; A %s' % (self.sig_text(sn['sig']),
                                           self.meta_text(case, sn['meta'], sn['wrapped'], sn['async']),
-                                          self.anns_text(sn['sig']))
+                                          self.anns_text(sn['sig'], masks[j] if j < len(masks) else ()))
             if j >= nbase:
                 outs = []
                 for o in obs['calls'][j - nbase]:
@@ -1169,8 +1191,11 @@ class C13(Property):
             sig += ' posonly!'
         return sig
 
-    def anns_text(self, ws):
-        anns = ','.join('%s:%s' % (self._num(p[0]), '-' if p[3] is None else p[3]) for p in ws['params'])
+    def anns_text(self, ws, mask=()):
+        """annotations of the parameters as inspect.signature shows them; `*` for a parameter the request removed
+        and added again (its annotation is not constrained by the statement)"""
+        anns = ','.join('%s:%s' % (self._num(p[0]), '*' if name_id(p[0]) in mask else ('-' if p[3] is None else p[3]))
+                        for p in ws['params'])
         return anns + ' r:%s' % ('-' if ws['ret'] is None else ws['ret'])
 
     @staticmethod
@@ -1240,8 +1265,7 @@ class C13(Property):
             md = '?%r' % (module,)
         wr = '-' if obs['wrapped'] is None else str(obs['wrapped'])
         meta = '%s %s %s %s %d' % (nm, dc, md, wr, obs['wasync'])
-        anns = ','.join('%s:%s' % (num(p[0]), '-' if p[3] is None else p[3]) for p in ws['params'])
-        anns += ' r:%s' % ('-' if ws['ret'] is None else ws['ret'])
+        anns = self.anns_text(ws, readded_ops(case['ops']) if hist else readded_w(case['injected'], case['expected']))
         d_txt, i_txt = [''.join(t.split()) for t in self.source_parts(obs['source'])]   # modulo white space
         i_txt = self.sort_kw_items(i_txt)
         outs = []
